@@ -658,6 +658,10 @@ func (hp *HTTPProxy) isLocalhost(host string) bool {
 	if slices.Contains(hp.localhost, host) {
 		return true
 	}
+	// A target without a host (http://:8080/, CONNECT :8080) is dialed as ":8080", which is the local host.
+	if host == "" {
+		return true
+	}
 	// An IPv6 zone does not change which host the address belongs to.
 	if i := strings.IndexByte(host, '%'); i >= 0 {
 		host = host[:i]
